@@ -1,7 +1,7 @@
 \* C13 exhaustive: two records (<= 1 argument each) from two threads with their own active spans, every interleaving
 \* with ForceFlush, two multi-processor pipelines
 CONSTANTS NT = 2  NS = 1  PipeNames = {"sb", "bhs"}  NRes = 1
-          MaxRecs = 2  MaxSets = 0  MaxArgs = 1  MaxFlush = 1  MaxNull = 0  LgSet = {1}  MaxScope = 1  MaxNest = 1
+          MaxRecs = 2  MaxSets = 0  MaxArgs = 1  MaxFlush = 1  MaxNull = 0  MaxAdd = 0  LgSet = {1}  MaxScope = 1  MaxNest = 1
           NSev = 0  NBody = 1  NTs = 0  NId = 1  NFl = 0  NAK = 0  NAV = 0  MaxMap = 0  NEv = 0  NName = 0
           GenDepth = 0  Hist = FALSE  Dev = {}
 INIT Init
